@@ -120,6 +120,13 @@ impl ContextData {
         self.rns_tool.as_ref().unwrap()
     }
 
+    /// The Galois tool of this level (the key-level one is shared by evaluators
+    /// and key generators).
+    #[cfg(feature = "verif_hooks")]
+    pub fn verif_galois_tool(&self) -> &GaloisTool {
+        self.galois_tool.as_ref().unwrap()
+    }
+
     /// The Galois transformation tool of this level of [ContextData].
     pub(crate) fn galois_tool(&self) -> &GaloisTool {
         self.galois_tool.as_ref().unwrap()
